@@ -276,6 +276,8 @@ pub fn long_inputs() -> Vec<Input> {
         shape_named("long:Z40000+R30000+C32768x40000", &[(Seg::Z, 40000), (Seg::R, 30000), (Seg::C(32768), 40000)]),
         shape_named("long:P259x100000", &[(Seg::P(259), 100000)]),
         shape_named("long:T33000+H50000+T33000", &[(Seg::T, 33000), (Seg::H, 50000), (Seg::T, 33000)]),
+        // the last input byte is the one at which the compressor cuts a block by itself (2 x (31 KiB + 1))
+        shape_named("long:R63490", &[(Seg::R, 63490)]),
     ]
 }
 
